@@ -114,4 +114,57 @@ def runRounds (c : AwardCfg) (n : Node) : List (Nat × List Task) → Node
   | [] => n
   | (k, adds) :: rest => runRounds c (mineRound c { n with pendingAdds := adds } k).2 rest
 
+/-! ### a round that fails on a storage write, and the miner's recovery
+
+`confirmBlockForMiner` writes twice: the ledger batch of `Ledger.ConfirmBlock`, then the single state batch at the end of
+`State.PlayForMiner`. If the first write fails nothing has happened. If the second fails the block IS the tip of the
+ledger (peers that synchronise are served it) while the state machine still stands on its parent; `PlayForMiner` has
+applied the award to its in-memory total while filling the batch and must take that back (`rollbackMemState`). The next
+round starts with `State.Walk(ledger tip)`, which plays the block like any other node does. -/
+
+/-- which write of the round fails -/
+inductive Fault where
+  | ledger
+  | state
+deriving Repr, DecidableEq, Inhabited
+
+/-- the node with its state machine: how many blocks of the trunk (counted from the root) the state has applied, and
+the total supply the state reports -/
+structure NodeS where
+  node : Node := {}
+  played : Nat := 0
+  total : Nat := 0
+deriving Repr, DecidableEq, Inhabited
+
+/-- the awards of the `n` newest blocks of a trunk -/
+def newestAwards (trunk : List Blk) (n : Nat) : Nat := ((trunk.take n).map (·.award)).sum
+
+/-- `State.Walk(ledger tip)` at the start of `Miner.mining`: the blocks the state has not played yet are applied -/
+def walkToTip (s : NodeS) : NodeS :=
+  { s with played := s.node.trunk.length,
+           total := s.total + newestAwards s.node.trunk (s.node.trunk.length - s.played) }
+
+/-- one round without truncation, optionally with a failing write. `keepsAward = false` is the code (the in-memory
+award of a `PlayForMiner` whose batch is not written is rolled back); `keepsAward = true` is the variant that forgets
+the rollback (seeded change C13-13) -/
+def roundS (c : AwardCfg) (keepsAward : Bool) (s : NodeS) (f : Option Fault) : NodeS :=
+  let s := walkToTip s
+  let r := mineRound c s.node 0
+  match f with
+  | none => { node := r.2, played := r.2.trunk.length, total := s.total + r.1.award }
+  | some .ledger => s
+  | some .state => { node := r.2, played := s.played, total := if keepsAward then s.total + r.1.award else s.total }
+
+/-- the supply invariant: the state's total is the genesis amount plus the awards of the blocks it has played -/
+def supplyOK (g : Nat) (s : NodeS) : Prop :=
+  s.played ≤ s.node.trunk.length ∧
+  s.total + newestAwards s.node.trunk (s.node.trunk.length - s.played) = g + newestAwards s.node.trunk s.node.trunk.length
+
+instance (g : Nat) (s : NodeS) : Decidable (supplyOK g s) := by unfold supplyOK; exact inferInstance
+
+/-- rounds with faults: each entry is (tasks registered by the pending transactions, failing write) -/
+def runRoundsS (c : AwardCfg) (keeps : Bool) (s : NodeS) : List (List Task × Option Fault) → NodeS
+  | [] => s
+  | (adds, f) :: rest => runRoundsS c keeps (roundS c keeps { s with node := { s.node with pendingAdds := adds } } f) rest
+
 end XV.Miner
